@@ -153,7 +153,7 @@ pub fn check(_ctx: &Ctx, input: &Input) -> CaseResult {
 fn run(ctx: &Ctx) {
     let plans = [GenPlan {
         gen: "customs",
-        cases: ctx.tier.pick(5000, 250_000),
+        cases: ctx.tier.pick(30_000, 600_000),
         min_len: 0,
         max_len: 600,
     }];
